@@ -687,7 +687,8 @@ def check_api_binding(ctx):
     for nm in ("u64_to_hex", "hex_to_u64"):
         b = bound.get(nm)
         if b is None:
-            ctx.bad("C19.0", f"a5.{nm} not exported", "a5/__init__.py", f"a5/__init__.py does not bind {nm}")
+            ctx.unk("C19.0", f"a5.{nm} is not bound by a statement of a5/__init__.py", "a5/__init__.py",
+                    "exported through a module-level __getattr__ or not at all: which function the public name is, is not decided here")
         elif b[0] in ("a5.core.hex", ".core.hex") and b[1] == nm:
             ctx.ok("C19.0", f"a5.{nm} is a5.core.hex.{nm}", core.loc("a5/__init__.py", b[2]), "import resolves to the analysed function")
         else:
